@@ -119,21 +119,22 @@ func Profile(name string) GenConfig {
 }
 
 type gen struct {
-	t        *rapid.T
-	cfg      *GenConfig
-	g        *Grammar
-	names    []string        // rule names, index order
-	nullable map[string]bool // rules generated so far
-	ruleIdx  int
-	nextID   int
-	labelN   int
-	recRules []string // dedicated recovery rules
-	noCode   bool     // inside a recovery expression: no code blocks, no labels
-	noThrow  bool
-	handled  []string // failure labels handled by the lexically enclosing recovery operators
-	inRecover int
-	forceLabel string
-	classLeaves []string // optbait: helper rules that are plain classes
+	t             *rapid.T
+	cfg           *GenConfig
+	g             *Grammar
+	names         []string        // rule names, index order
+	nullable      map[string]bool // rules generated so far
+	ruleIdx       int
+	nextID        int
+	labelN        int
+	recRules      []string // dedicated recovery rules
+	noCode        bool     // inside a recovery expression: no code blocks, no labels
+	noThrow       bool
+	handled       []string // failure labels handled by the lexically enclosing recovery operators
+	inRecover     int
+	forceLabel    string
+	classLeaves   []string // optbait: helper rules that are plain classes
+	inlineRecCode bool     // recovery expressions of operators (not the dedicated rules) may hold label-free actions and references to recovery rules
 }
 
 func (c *gen) intn(lo, hi int, l string) int { return lo + U(c.t, hi-lo+1, l) }
@@ -297,6 +298,12 @@ func (c *gen) expr(depth int, guarded bool) (*Expr, bool) {
 	if c.cfg.Throw && !c.noThrow && len(c.handled) > 0 && c.chance(10, "throwexpr") {
 		return &Expr{K: KThrow, Name: c.flabel()}, true
 	}
+	if c.cfg.Code && !c.noCode && c.inRecover == 0 && depth < c.cfg.MaxDepth && c.chance(6, "shadowbait") {
+		return c.shadowBait(), false
+	}
+	if c.cfg.StateBlocks && !c.noCode && c.chance(6, "statepredbait") {
+		return c.statePredBait(), true
+	}
 	k := c.intn(0, 99, "kind")
 	switch {
 	case k < 22:
@@ -408,17 +415,70 @@ func (c *gen) bait() (*Expr, bool) {
 	return &Expr{K: KSeq, Sub: []*Expr{c.lit(), in}}, false
 }
 
+// shadowBait draws  l:t1 OP( l:t2 t3 ) {action} : the same label name bound in the enclosing
+// sequence and inside the operand of a predicate / repetition / option, where the inner
+// binding happens and the operand then fails or succeeds; the action reads the outer value.
+func (c *gen) shadowBait() *Expr {
+	name := c.label() // unique in the enclosing scope; bound again inside the operand's own scope
+	inner := &Expr{K: KSeq, Sub: []*Expr{{K: KLabel, Name: name, Sub: []*Expr{c.consuming()}}, c.consuming()}}
+	var op *Expr
+	switch c.intn(0, 4, "shadowop") {
+	case 0:
+		op = &Expr{K: KNot, Sub: []*Expr{inner}}
+	case 1:
+		op = &Expr{K: KAnd, Sub: []*Expr{inner}}
+	case 2:
+		op = &Expr{K: KOpt, Sub: []*Expr{inner}}
+	case 3:
+		op = &Expr{K: KStar, Sub: []*Expr{inner}}
+	default:
+		op = &Expr{K: KNot, Sub: []*Expr{{K: KLabel, Name: name, Sub: []*Expr{c.consuming()}}}}
+	}
+	if !c.cfg.Preds && (op.K == KNot || op.K == KAnd) {
+		op = &Expr{K: KOpt, Sub: []*Expr{inner}}
+	}
+	seq := &Expr{K: KSeq, Sub: []*Expr{{K: KLabel, Name: name, Sub: []*Expr{c.consuming()}}, op}}
+	if c.chance(50, "shadowtail") {
+		seq.Sub = append(seq.Sub, c.consuming())
+	}
+	return &Expr{K: KAction, ID: c.id(), Sub: []*Expr{seq}}
+}
+
+// statePredBait draws a predicate directly under ? (no sequence in between) whose operand
+// changes the state and then matches or fails: ( !( #{..} t ) )?  ( &( #{..} t ) )?
+func (c *gen) statePredBait() *Expr {
+	operand := &Expr{K: KSeq, Sub: []*Expr{c.stateBlock(), c.consuming()}}
+	if c.chance(30, "statepredtail") {
+		operand.Sub = append(operand.Sub, c.stateBlock())
+	}
+	k := KNot
+	if c.chance(40, "statepredand") {
+		k = KAnd
+	}
+	if !c.cfg.Preds {
+		return &Expr{K: KOpt, Sub: []*Expr{operand}}
+	}
+	return &Expr{K: KOpt, Sub: []*Expr{{K: k, Sub: []*Expr{operand}}}}
+}
+
 // relatedClass draws a small non-inverted class from ranges that share end points.
 func (c *gen) relatedClass() *Expr {
 	pairs := [][2]rune{{'0', '1'}, {'0', '7'}, {'0', '9'}, {'a', 'c'}, {'a', 'f'}, {'a', 'z'}, {'A', 'F'}, {'A', 'Z'}, {'b', 'k'}}
 	e := &Expr{K: KClass}
-	n := c.intn(1, 2, "relranges")
+	// (three ranges / three Unicode classes: pigeon builds these slices by appending, which
+	// leaves spare capacity exactly then - a shallow copy shares it)
+	n := c.intn(1, 3, "relranges")
 	for i := 0; i < n; i++ {
 		p := Pick(c.t, pairs, "relrange")
 		e.Ranges = append(e.Ranges, p[0], p[1])
 	}
 	if c.chance(30, "relchar") {
 		e.Chars = append(e.Chars, c.rune_())
+	}
+	if c.cfg.UClasses && c.chance(20, "relucl") {
+		for _, u := range []string{"Nd", "Lu", "Greek"}[:c.intn(1, 3, "nrelucl")] {
+			e.UClasses = append(e.UClasses, u)
+		}
 	}
 	return e
 }
@@ -649,15 +709,36 @@ func (c *gen) recover(depth int, guarded bool) (*Expr, bool) {
 	} else {
 		saveC, saveT := c.noCode, c.noThrow
 		c.noCode, c.noThrow = true, true
-		// recovery expressions are reference-free: they run wherever the throw happens
+		// recovery expressions are free of references to ordinary rules: they run wherever the
+		// throw happens
+		c.inlineRecCode = true
 		rec, rn = c.recExpr()
+		c.inlineRecCode = false
 		c.noCode, c.noThrow = saveC, saveT
 	}
 	return &Expr{K: KRecover, Sub: []*Expr{e, rec}, Labels: labels}, en || rn
 }
 
-// recExpr draws a small terminal-only expression.
+// recExpr draws a small expression for a recovery position: terminals, optionally under a
+// label-free action (the builder gives the operator a scope of its own; at run time the block
+// runs in the scope of the throw, so it may not take labels), optionally next to a reference
+// to a dedicated recovery rule.
 func (c *gen) recExpr() (*Expr, bool) {
+	e, n := c.recExpr0()
+	if c.cfg.Code && c.inlineRecCode && c.chance(30, "recinlineaction") {
+		e = &Expr{K: KAction, ID: c.id(), Sub: []*Expr{e}}
+	}
+	if c.inlineRecCode && len(c.recRules) > 0 && c.chance(20, "recnestedref") {
+		name := Pick(c.t, c.recRules, "recnestedname")
+		if c.chance(50, "recnestedseq") {
+			return &Expr{K: KSeq, Sub: []*Expr{{K: KRef, Name: name}, e}}, n && c.nullable[name]
+		}
+		return &Expr{K: KChoice, Sub: []*Expr{e, {K: KRef, Name: name}}}, n || c.nullable[name]
+	}
+	return e, n
+}
+
+func (c *gen) recExpr0() (*Expr, bool) {
 	switch c.intn(0, 3, "reck") {
 	case 0:
 		a := c.consuming()
@@ -763,7 +844,7 @@ func GrammarGen(cfg GenConfig) *rapid.Generator[*Grammar] {
 			}
 			r := &Rule{Name: c.names[i], Expr: e}
 			if cfg.Display && c.chance(40, "display") {
-				r.Display = Pick(t, []string{"friendly", "a b", "x\"y", "é"}, "dname")
+				r.Display = Pick(t, []string{"friendly", "a b", "x\"y", "é", "100%d", "%s%v"}, "dname")
 			}
 			rules[i] = r
 			c.nullable[c.names[i]] = n
